@@ -236,6 +236,14 @@ func runOptCase(o *Oracle, d json.RawMessage, oc *Outcome) {
 	cost2 := s2.Minimize()
 	s2.VerifSetAppendHook(nil)
 	boundMirrorMinimize(o, oc, *obs2, coefs, lits, cost2)
+	// once more with the prologue of every AppendClause tied to its mirror
+	s3 := solver.New(c.problem())
+	s3.CuttingPlanes = c.CP
+	stopAppends := mirrorAppends(o, oc, s3, "solver.Minimize")
+	if cost3 := s3.Minimize(); cost3 != cost2 {
+		oc.Fail("spec", "entry-points-agree", "solver.Minimize", "two runs on the same problem: %d then %d", cost2, cost3)
+	}
+	stopAppends()
 	if cost2 == -1 && !(sat && best == -1) {
 		judge("solver.Minimize", solver.Unsat, -1, nil)
 	} else {
